@@ -2,6 +2,8 @@ from __future__ import annotations
 
 import typing
 
+from urwid.util import get_encoding_mode
+
 from .constants import BAR_SYMBOLS, Align, Sizing, WrapMode
 from .text import Text
 from .widget import Widget
@@ -117,11 +119,13 @@ class ProgressBar(Widget):
         (maxcol,) = size
         c = Text(self.get_text(), self.text_align, WrapMode.CLIP).render((maxcol,))
 
-        cf = float(self.current) * maxcol / self.done
+        # the bar is empty below 0 and full above `done`
+        cf = float(min(max(self.current, 0), self.done)) * maxcol / self.done
         ccol_dirty = int(cf)
         ccol = len(c._text[0][:ccol_dirty].decode("utf-8", "ignore").encode("utf-8"))
         cs = 0
-        if self.satt is not None:
+        if self.satt is not None and get_encoding_mode() == "utf8":
+            # the smoothing characters only exist in UTF-8 (same rule as BarGraph)
             cs = int((cf - ccol) * 8)
         if ccol < 0 or (ccol == cs == 0):
             c._attr = [[(self.normal, maxcol)]]
@@ -139,6 +143,8 @@ class ProgressBar(Widget):
                 a.append((self.normal, maxcol - ccol - 1))
             c._attr = [a]
             c._cs = [[(None, len(c._text[0]))]]
+        elif ccol == 0:
+            c._attr = [[(self.normal, maxcol)]]
         else:
             c._attr = [[(self.complete, ccol), (self.normal, maxcol - ccol)]]
         return c
